@@ -84,7 +84,7 @@ def SimS (h : Nat) : List GAct → AbsS → Bool
 
 theorem codeS_ok (cfg : Cfg) (hk : cfg.kind = .live) (h : Nat) (op : Op) (hop : StableOp h op = true) (hkd rc : Bool) :
     SimS h (code cfg op) ⟨[], 0, hkd, rc⟩ = true := by
-  obtain ⟨kind, w, hh, rec, tr⟩ := cfg
+  obtain ⟨kind, w, hh, rec, tr, tl⟩ := cfg
   simp only at hk
   subst hk
   cases op with
